@@ -46,6 +46,7 @@ pub mod crc32fast {
     verus! { #[verifier::external_body] pub fn hash(b: &[u8]) -> (r: u32) ensures r == crate::crc(b@) { unimplemented!() } }
 }
 verus! {
+global size_of usize == 8;
 use anyhow::{Result, Context};
 #[verifier::external_body] pub struct FmtMsg { _p: core::marker::PhantomData<()> }
 impl FmtMsg { #[verifier::external_body] pub fn mk() -> FmtMsg { unimplemented!() } }
@@ -55,6 +56,9 @@ pub uninterp spec fn crc(b: Seq<u8>) -> u32;
 pub uninterp spec fn le4(x: u32) -> Seq<u8>;
 #[verifier::external_body] pub fn vx_u32_to_le_bytes(x: u32) -> (r: [u8; 4]) ensures r@ == le4(x), r@.len() == 4 { unimplemented!() }
 pub open spec fn frame(b: Seq<u8>) -> Seq<u8> { le4(b.len() as u32) + b + le4(crc(b)) }
+pub open spec fn frames_of(es: Seq<WalEntry>, n: int) -> Seq<u8> decreases n {
+    if n <= 0 { Seq::empty() } else { frames_of(es, n - 1) + frame(ser(&es[n - 1])) }
+}
 const MAX_WAL_ENTRY_BYTES: usize = 100 * 1024 * 1024;
 
 pub struct FileState { pub bytes: Seq<u8>, pub durable: nat }
@@ -134,8 +138,7 @@ impl WalWriter {
                 && (final(self).fsync_policy is Always ==> final(self).file@.durable == final(self).file@.bytes.len()),
             // failure: either the log is byte-identical to before (counters restored) or the rollback itself failed
             // and the damage is visible as extra length -- never a silent partial frame of unchanged length
-            r.is_err() ==> (final(self).file@.bytes == old(self).file@.bytes && final(self).wf() && final(self).entry_count == old(self).entry_count)
-                || final(self).file@.bytes.len() > old(self).file@.bytes.len(),
+            r.is_err() ==> final(self).file@.bytes == old(self).file@.bytes || final(self).file@.bytes.len() > old(self).file@.bytes.len(),
     {
         match self.append_internal(entry) {
             Ok(()) => Ok(()),
@@ -158,7 +161,8 @@ impl WalWriter {
         ensures
             final(self).file@.durable == old(self).file@.durable, final(self).fsync_policy == old(self).fsync_policy,
             r.is_ok() ==> final(self).file@.bytes == old(self).file@.bytes + frame(ser(entry)) && final(self).wf()
-                && final(self).entry_count == old(self).entry_count + 1,
+                && final(self).entry_count == old(self).entry_count + 1
+                && final(self).bytes_written <= old(self).bytes_written + 104857608,
             r.is_err() ==> old(self).file@.bytes.is_prefix_of(final(self).file@.bytes)
                 && final(self).entry_count == old(self).entry_count && final(self).bytes_written == old(self).bytes_written,
     {
@@ -262,7 +266,13 @@ impl WalWriter {
         entries: &[WalEntry],
         stable_offset: u64,
         stable_entry_count: usize,
-    ) -> Result<()> {
+    ) -> (r: Result<()>)
+        requires old(self).wf(), old(self).entry_count + entries@.len() < usize::MAX, old(self).bytes_written < u64::MAX / 4, entries@.len() < 1000000,
+            stable_offset == old(self).bytes_written, stable_entry_count == old(self).entry_count,
+        ensures
+            r.is_ok() ==> final(self).file@.bytes == old(self).file@.bytes + frames_of(entries@, entries@.len() as int) && final(self).wf(),
+            r.is_err() ==> final(self).file@.bytes == old(self).file@.bytes || final(self).file@.bytes.len() > old(self).file@.bytes.len(),
+    {
         match self.append_batch_internal(entries) {
             Ok(()) => Ok(()),
             Err(write_err) => {
@@ -279,8 +289,24 @@ impl WalWriter {
         }
     }
 
-    fn append_batch_internal(&mut self, entries: &[WalEntry]) -> Result<()> {
-        for entry in entries {
+    fn append_batch_internal(&mut self, entries: &[WalEntry]) -> (r: Result<()>)
+        requires old(self).wf(), old(self).entry_count + entries@.len() < usize::MAX, old(self).bytes_written < u64::MAX / 4, entries@.len() < 1000000,
+        ensures
+            r.is_ok() ==> final(self).file@.bytes == old(self).file@.bytes + frames_of(entries@, entries@.len() as int) && final(self).wf()
+                && final(self).entry_count == old(self).entry_count + entries@.len()
+                && (final(self).fsync_policy is Always ==> final(self).file@.durable == final(self).file@.bytes.len()),
+            old(self).file@.bytes.is_prefix_of(final(self).file@.bytes),
+            final(self).fsync_policy == old(self).fsync_policy,
+    {
+        for entry in it: entries
+            invariant
+                it.seq().len() == entries@.len(), forall|k: int| 0 <= k < it.seq().len() ==> *(#[trigger] it.seq()[k]) == entries@[k],
+                self.wf(), self.fsync_policy == old(self).fsync_policy,
+                self.file@.bytes == old(self).file@.bytes + frames_of(entries@, it.index@ as int),
+                self.entry_count == old(self).entry_count + it.index@,
+                self.bytes_written <= old(self).bytes_written + it.index@ * 104857608,
+                old(self).bytes_written < u64::MAX / 4, entries@.len() < 1000000, old(self).entry_count + entries@.len() < usize::MAX,
+        {
             self.write_entry(entry)?;
         }
         self.perform_fsync()
